@@ -226,6 +226,20 @@ a file system with an arbitrary external program. -/
 section FilePostProcessors
 open NunavutVerif.FilePP
 
+/-- The source the model of the file post-processors was transcribed from (regenerated facts, `translate/tplflows.py`):
+no `FilePostProcessor` of the package writes object state outside `__init__` — directly or through a local alias of an
+attribute (`run_args = self._command_line; run_args += …`) —; `SetFileMode`, `ExternalProgramEditInPlace`, the command
+line's list builder, `_handle_overwrite` and `_copy_header` have exactly the transcribed statements; `_generate_code` and
+`SupportGenerator.generate_all` classify (reset and collect | collect | raise `ValueError`) and call the file
+post-processors in one loop `path = file_pp(path)` after the file is written. -/
+theorem C10_file_pp_model_matches_source :
+    TplFlows.filePPCallsPure = true ∧ TplFlows.filePPSourceMatchesModel = true ∧
+    TplFlows.generatorRunsFilePPsOnceInOrder = true := by decide
+
+/-- Every attribute a `LinePostProcessor` of the package writes while it processes lines is assigned again by its
+`reset()` (the hook `_generate_code` calls per file): the reset really returns the processor to its initial state. -/
+theorem C10_line_pp_reset_complete_in_source : TplFlows.linePPResetComplete = true := by decide
+
 /-- A call of a file post-processor leaves the object as it was — in particular `ExternalProgramEditInPlace.__call__`
 builds a fresh `run_args` list and does not touch `_command_line`. -/
 theorem C10_file_pp_call_leaves_object_unchanged (py : LineBuffer.Str) (ren : Nat → LineBuffer.Str → LineBuffer.Str) :
@@ -253,8 +267,8 @@ theorem C10_cli_file_pp_sequence (py : LineBuffer.Str) (ren : Nat → LineBuffer
       [.overwrite path allow, .write path bytes (lineIds (cliObjs trim limit none mode)),
        .exec (if endsWithPy P then py :: P :: (args ++ [path]) else P :: (args ++ [path])) true,
        .chmod path mode] := by
-  cases trim <;> cases limit <;>
-    simp [fileEvents, cliObjs, classify, lineIds, callAll, callReal, Obj.isFilePP, runArgs]
+  cases trim <;> cases limit <;> cases hpy : endsWithPy P <;>
+    simp [fileEvents, cliObjs, classify, lineIds, callAll, callReal, Obj.isFilePP, runArgs, hpy]
 
 /-- The bytes and the permission bits of a generated file do not depend on which other files are generated, in which
 order, before or after it: after ANY completed run that contains job `j` they are what generating `j` alone gives.
@@ -269,11 +283,11 @@ theorem C10_file_bytes_independent_of_other_files (prog : Prog) (ren : Nat → L
     (hout₁ : ∀ k ∈ pre₁ ++ j :: post₁, k.path ∉ py :: cfgArgs objs)
     (hout₂ : ∀ k ∈ pre₂ ++ j :: post₂, k.path ∉ py :: cfgArgs objs)
     (hd₁ : ∀ k ∈ pre₁ ++ post₁, k.path ≠ j.path) (hd₂ : ∀ k ∈ pre₂ ++ post₂, k.path ≠ j.path)
-    (fs₁ fs₂ : FS) (hagree : ∀ q, (q = j.path ∨ q ∈ py :: cfgArgs objs) → fs₁ q = fs₂ q)
+    (fs₁ fs₂ : FS) (hagree : ∀ q, (q = j.path ∨ q ∈ py :: cfgArgs objs) → fs₁.get q = fs₂.get q)
     (hok₁ : (runWorld prog ren defMode (callReal py ren) objs (pre₁ ++ j :: post₁) fs₁).err = none)
     (hok₂ : (runWorld prog ren defMode (callReal py ren) objs (pre₂ ++ j :: post₂) fs₂).err = none) :
-    (runWorld prog ren defMode (callReal py ren) objs (pre₁ ++ j :: post₁) fs₁).fs j.path =
-      (runWorld prog ren defMode (callReal py ren) objs (pre₂ ++ j :: post₂) fs₂).fs j.path := by
+    (runWorld prog ren defMode (callReal py ren) objs (pre₁ ++ j :: post₁) fs₁).fs.get j.path =
+      (runWorld prog ren defMode (callReal py ren) objs (pre₂ ++ j :: post₂) fs₂).fs.get j.path := by
   have h₁ := run_file_independent prog ren defMode py objs hb hF hL pre₁ post₁ j hout₁
     (fun k hk => hd₁ k (List.mem_append_left _ hk)) (fun k hk => hd₁ k (List.mem_append_right _ hk)) fs₁ fs₁
     (fun _ _ => rfl) hok₁
@@ -292,7 +306,7 @@ theorem C10_set_file_mode_effect_independent (prog : Prog) (ren : Nat → LineBu
     (hout : ∀ k ∈ pre ++ j :: post, k.path ∉ py :: cfgArgs (front ++ [.setMode mode]))
     (hd : ∀ k ∈ pre ++ post, k.path ≠ j.path) (fs : FS)
     (hok : (runWorld prog ren defMode (callReal py ren) (front ++ [.setMode mode]) (pre ++ j :: post) fs).err = none) :
-    ((runWorld prog ren defMode (callReal py ren) (front ++ [.setMode mode]) (pre ++ j :: post) fs).fs j.path).map File.mode
+    ((runWorld prog ren defMode (callReal py ren) (front ++ [.setMode mode]) (pre ++ j :: post) fs).fs.get j.path).map File.mode
       = some mode := by
   have hb' : builtinOnly (front ++ [.setMode mode]) = true := by
     clear hF hout hok
@@ -308,6 +322,80 @@ theorem C10_set_file_mode_effect_independent (prog : Prog) (ren : Nat → LineBu
   obtain ⟨evs, hevs⟩ := fileEvents_setMode_last py ren front mode j hb
   rw [hevs, interp_append] at herr ⊢
   exact step_chmod_ok prog ren defMode _ j.path mode herr
+
+/-! Non-vacuity and the counterexamples. -/
+
+private def jA : FilePP.Job := ⟨.generate, ['a'], ['x'], true⟩
+private def jB : FilePP.Job := ⟨.generate, ['b'], ['y'], true⟩
+private def jC : FilePP.Job := ⟨.copy 0o644, ['c'], ['z'], true⟩
+private def idRen : Nat → LineBuffer.Str → LineBuffer.Str := fun _ p => p
+private def mark : Nat → LineBuffer.Str := fun _ => ['#']
+private def noFiles : FS := ⟨fun _ => none⟩
+
+/-- If the generated file were appended to the stored command line in place (`run_args = self._command_line;
+run_args += [str(generated)]`), the call would change the object, the second file's invocation would name the first
+file too … -/
+example : ¬ Sem.Pure (callInPlace [] idRen) := by
+  intro h
+  have := h (.ext [] true) ['a']
+  simp [callInPlace] at this
+
+example :
+    (runEvents (callInPlace ['p'] idRen) [.ext [['t']] true] [jA, jB]).1 =
+      [[.overwrite ['a'] true, .write ['a'] ['x'] [], .exec [['t'], ['a']] true],
+       [.overwrite ['b'] true, .write ['b'] ['y'] [], .exec [['t'], ['a'], ['b']] true]] ∧
+    (runEvents (callReal ['p'] idRen) [.ext [['t']] true] [jA, jB]).1 =
+      [[.overwrite ['a'] true, .write ['a'] ['x'] [], .exec [['t'], ['a']] true],
+       [.overwrite ['b'] true, .write ['b'] ['y'] [], .exec [['t'], ['b']] true]] := by decide
+
+/-- … and with a program that edits every file named on its command line the bytes of a file would depend on how many
+files are generated after it (edited twice in the company of `b`, once alone); the code as it is: once in both. -/
+example :
+    ((runWorld (stubProg mark true []) idRen 0o644 (callInPlace [] idRen) [.ext [['t']] true] [jA, jB] noFiles).fs.get ['a']).map
+        File.bytes = some ['x', '#', '#'] ∧
+    ((runWorld (stubProg mark true []) idRen 0o644 (callInPlace [] idRen) [.ext [['t']] true] [jA] noFiles).fs.get ['a']).map
+        File.bytes = some ['x', '#'] ∧
+    ((runWorld (stubProg mark true []) idRen 0o644 (callReal [] idRen) [.ext [['t']] true] [jA, jB] noFiles).fs.get ['a']).map
+        File.bytes = some ['x', '#'] ∧
+    ((runWorld (stubProg mark true []) idRen 0o644 (callReal [] idRen) [.ext [['t']] true] [jA] noFiles).fs.get ['a']).map
+        File.bytes = some ['x', '#'] := by decide
+
+/-- The hypotheses of `C10_file_bytes_independent_of_other_files` are satisfiable together (the recording program of the
+tie in its edit-the-last-argument mode, the command line's list with a program and `--file-mode 0o444`, a file that
+exists read-only before one of the runs): whole run in one order vs a subset in another. -/
+example :
+    (runWorld (stubProg mark false []) idRen 0o644 (callReal ['p'] idRen)
+        (cliObjs true true (some (['t'], [['-', 'i']])) 0o444) [jC, jA, jB] noFiles).fs.get ['a'] =
+    (runWorld (stubProg mark false []) idRen 0o644 (callReal ['p'] idRen)
+        (cliObjs true true (some (['t'], [['-', 'i']])) 0o444) [jB, jA] noFiles).fs.get ['a'] :=
+  C10_file_bytes_independent_of_other_files (stubProg mark false []) idRen 0o644 ['p']
+    (cliObjs true true (some (['t'], [['-', 'i']])) 0o444) (by decide)
+    (stubProg_editsLastOnly mark [] _) (stubProg_local mark []) [jC] [jB] [jB] [] jA
+    (by decide) (by decide) (by decide) (by decide) noFiles noFiles (fun _ _ => rfl) (by decide) (by decide)
+
+example :
+    ((runWorld (stubProg mark false []) idRen 0o644 (callReal ['p'] idRen)
+        (cliObjs true true (some (['t'], [['-', 'i']])) 0o444) [jC, jA, jB] noFiles).fs.get ['a']) = some ⟨['x', '#'], 0o444⟩ := by
+  decide
+
+/-- Every `raise` is a branch: an object of neither kind (after the resets of the line post-processors before it; nothing
+is written), an existing file without `allow_overwrite`, a failing program with `check=True` (the files after it are
+not generated), the same with `check=False` (the run goes on). -/
+example :
+    (runWorld (stubProg mark false []) idRen 0o644 (callReal [] idRen) [.line 0, .unknown 7, .line 1] [jA] noFiles).err
+      = some .valueError ∧
+    (runWorld (stubProg mark false []) idRen 0o644 (callReal [] idRen) [.line 0, .unknown 7, .line 1] [jA] noFiles).log
+      = [.raiseUnknown, .reset 0] ∧
+    (runWorld (stubProg mark false []) idRen 0o644 (callReal [] idRen) [] [⟨.generate, ['a'], ['x'], false⟩]
+      (noFiles.set ['a'] (some ⟨[], 0o444⟩))).err = some .permissionError ∧
+    ((runWorld (stubProg mark false [['a']]) idRen 0o644 (callReal [] idRen) [.ext [['t']] true] [jA, jB] noFiles).err
+      = some .calledProcessError ∧
+     (runWorld (stubProg mark false [['a']]) idRen 0o644 (callReal [] idRen) [.ext [['t']] true] [jA, jB] noFiles).fs.get ['b']
+      = none) ∧
+    ((runWorld (stubProg mark false [['a']]) idRen 0o644 (callReal [] idRen) [.ext [['t']] false] [jA, jB] noFiles).err
+      = none ∧
+     (runWorld (stubProg mark false [['a']]) idRen 0o644 (callReal [] idRen) [.ext [['t']] false] [jA, jB] noFiles).fs.get ['b']
+      = some ⟨['y', '#'], 0o644⟩) := by decide
 
 end FilePostProcessors
 
